@@ -1093,6 +1093,12 @@ impl<'t, 'c> Gen<'t, 'c> {
                     fields.push((fi, v));
                 }
             }
+            // at least one position comes from the spread (a spread nothing is taken from never reaches the IR,
+            // and with it whatever its source mentions)
+            if fields.len() == nf {
+                let drop = self.t.pick(nf);
+                fields.remove(drop);
+            }
             if fields.is_empty() {
                 self.mark("spread_without_explicit_fields");
             }
